@@ -14,7 +14,9 @@
 (*  - the notes of the step (user function begin/end with its invocation index, return of *)
 (*    a driver operation and the value of calls()) must be what the specification says.   *)
 (* All invariants of TimedTask.tla are evaluated in every state of the behaviour.         *)
-EXTENDS TimedTask, Json, IOUtils
+(* Lines {"e":"Rec",...} are free-running real-time records (E5): each is judged by       *)
+(* RecOK (TimedRecProps.tla) and leaves the state alone.                                  *)
+EXTENDS TimedTask, TimedRecProps, Json, IOUtils
 
 TraceLog == ndJsonDeserialize(IOEnv.TRACE)
 
@@ -188,7 +190,7 @@ ProjOK(ev) ==
         /\ ev.s.ep = epoch' % 65536)
 
 EnvEvents  == {"FutexTimeout", "FutexSpurious"}
-MetaEvents == {"Reset", "End"}
+MetaEvents == {"Reset", "End", "Rec"}
 
 TraceStep ==
   /\ l <= Len(TraceLog)
@@ -198,6 +200,9 @@ TraceStep ==
        \/ /\ ev.e = "End"                      \* the real program ran to completion
           /\ AllDone
           /\ \A k \in Tasks : queued[k] = 0
+          /\ UNCHANGED vars
+       \/ /\ ev.e = "Rec"                      \* a free-running real-time record (E5), judged on its own
+          /\ RecOK(ev)
           /\ UNCHANGED vars
        \/ /\ ev.e \notin MetaEvents
           /\ ev.e \notin {"Deadlock", "Crash", "Diverged", "FutexSpurious"}
